@@ -118,14 +118,37 @@ func (l *listener) listenLoop() {
 					_ = conn.Close()
 					return
 				case l.backlog <- conn:
+					// select may take this case although the listener was closed at the same moment: nobody will
+					// accept the queued connection then
+					if atomic.LoadUint32(&l.closed) == 1 {
+						l.drainBacklog()
+						return
+					}
 				}
 			}
 		}()
 	}
 }
 
+// drainBacklog closes the connections that were queued for Accept and will never be handed out.
+func (l *listener) drainBacklog() {
+	for {
+		select {
+		case conn := <-l.backlog:
+			_ = conn.Close()
+		default:
+			return
+		}
+	}
+}
+
 // accept gets connections from the backlog channel
 func (l *listener) Accept() (net.Conn, error) {
+	select {
+	case <-l.closeCh:
+		return nil, errors.New("listener is closed")
+	default:
+	}
 	select {
 	case conn := <-l.backlog:
 		return conn, nil
@@ -145,6 +168,8 @@ func (l *listener) Close() (err error) {
 	if swapped {
 		close(l.closeCh)
 	}
+	// connections still waiting for Accept hold a reference on their session: release them
+	l.drainBacklog()
 	// closed and clear sessions to avoid leaking
 	l.mu.Lock()
 	for _, wg := range l.sessions {
